@@ -94,7 +94,15 @@ def run(F, R, tier):
                     fu = [e for e in q.calls(r"Timestamp::from_unix$") if q.succeeded(e) is True and sym.term(e.args[0]) == ("call", "time::offset_date_time::OffsetDateTime::unix_timestamp", (res,))]
                     good = len(fu) == 1 and sym.term(q.ret.fields[0]) == ("payload", fu[0].result.t, "Ok", 0)
                 ok = ok and good
-            elif not (isinstance(q.ret, sym.V) and q.ret.name == "None"):
+            elif isinstance(q.ret, sym.V) and q.ret.name == "None":
+                # nothing is returned *exactly* when leaving the range: the time crate's checked op failed, or from_unix (the range
+                # gate) rejected its result — not because of some other test on the operands
+                opf = [e for e in q.calls(r"OffsetDateTime::%s$" % op) if q.succeeded(e) is False]
+                fuf = [e for e in q.calls(r"Timestamp::from_unix$") if q.succeeded(e) is False]
+                if not (opf or fuf):
+                    ok = False
+                    r2.fail((fn, "none-without-cause"), "%s returns None on a path where neither the checked operation nor the range gate failed (in-range results are refused): %s" % (name, q.describe()[:200] or "(unconditional)"))
+            else:
                 ok = False
         r2.site("%s = self.0.%s(duration.0) ✓ then from_unix(unix_timestamp(result)) ✓: %s (%d Some path(s))" % (name, op, ok, n_some))
         r2.require(ok and n_some >= 1, (fn, "shape"), "%s does not route the time crate's %s result through from_unix (range gate)" % (name, op))
